@@ -35,7 +35,8 @@ impl GeneralPurpose {
 
 
 def build():
-    u = Unit('b64cfg', ['C08', 'C04'])
+    # the engines of tonic/src/util.rs code status details and binary metadata: every property that relies on those headers relies on them
+    u = Unit('b64cfg', ['C08', 'C04', 'C02', 'C03', 'C12', 'C20'])
     u.prelude('base.rs')
     u.raw(SHIMS)
     u.exec_const(U, 'STANDARD', indent='', ensures=[
